@@ -33,6 +33,14 @@
  *      scheduler's hand-offs are happens-before edges, so (1) cannot see a plain data race - and is
  *      labelled as such in the evidence; the deciding step is the schedule enumeration.
  *
+ *      Both free-running builds (this TSan one and a plain gcc one, h_thr_free) keep one ledger: the wrapped
+ *      xcm_tp_socket_create records every socket id handed out; ids are "unique on a per-process basis"
+ *      (xcm_tp.c), so any value seen twice in a run is C15/socket-id/duplicate/free-running.  "--stress N,K,R"
+ *      aims at the allocator: N threads released by a barrier each round create and close K ux servers, R
+ *      rounds.  (A lost update between two atomic accesses with no lock or system call in between is invisible
+ *      to the enumeration - no scheduling point - and to ThreadSanitizer - no race; this sampling stress is
+ *      the complement for it.)
+ *
  * params:  t0=<tp>[/<cred>]:<script>,t1=...,[t2=...],pts=all|dep,pki=<dir of the certificate sets>
  *   tp: ux | tcp | tls        cred: a | b  (pki/good_a, pki/good_b)
  *   script letters:  S server   C connect (non-blocking)   A accept + drive both ends until established
@@ -598,8 +606,52 @@ static int parse_threads(const char *params)
 
 #ifdef H_THR_TSAN
 /* ============================================================================================== */
-/* free-running ThreadSanitizer pass                                                              */
+/* free-running passes (ThreadSanitizer build, and a plain build for the socket-id stress)        */
 /* ============================================================================================== */
+#include "xcm_tp.h"
+
+/* ---- socket-id ledger: every id handed out by xcm_tp_socket_create (wrapped in these builds too) ---- */
+struct xcm_socket *__real_xcm_tp_socket_create(const struct xcm_tp_proto *proto, enum xcm_socket_type type,
+                                               struct xpoll *xpoll, bool auto_enable_ctl, bool auto_update,
+                                               bool is_blocking);
+#define IDLOG_MAX (1 << 20)
+static int64_t g_idlog[IDLOG_MAX];
+static long g_nidlog;
+
+struct xcm_socket *__wrap_xcm_tp_socket_create(const struct xcm_tp_proto *proto, enum xcm_socket_type type,
+                                               struct xpoll *xpoll, bool auto_enable_ctl, bool auto_update,
+                                               bool is_blocking)
+{
+    struct xcm_socket *s = __real_xcm_tp_socket_create(proto, type, xpoll, auto_enable_ctl, auto_update, is_blocking);
+    if (s) {
+        long i = __atomic_fetch_add(&g_nidlog, 1, __ATOMIC_RELAXED);
+        if (i < IDLOG_MAX)
+            g_idlog[i] = s->sock_id;      /* slot i is written by exactly one thread; read after the joins */
+    }
+    return s;
+}
+
+static int cmp_i64(const void *a, const void *b)
+{
+    int64_t x = *(const int64_t *)a, y = *(const int64_t *)b;
+    return x < y ? -1 : x > y;
+}
+
+/* "socket id, unique on a per-process basis" (xcm_tp.c): no id may be handed out twice in the whole run */
+static long idlog_duplicates(long *total, int64_t *example)
+{
+    long n = g_nidlog < IDLOG_MAX ? g_nidlog : IDLOG_MAX, dup = 0;
+    qsort(g_idlog, n, sizeof g_idlog[0], cmp_i64);
+    for (long i = 1; i < n; i++)
+        if (g_idlog[i] == g_idlog[i - 1]) {
+            if (!dup)
+                *example = g_idlog[i];
+            dup++;
+        }
+    *total = n;
+    return dup;
+}
+
 static pthread_barrier_t g_bar;
 
 static void *tsan_thread(void *arg)
@@ -607,6 +659,51 @@ static void *tsan_thread(void *arg)
     pthread_barrier_wait(&g_bar);
     thread_body(arg);
     return NULL;
+}
+
+/* ---- stress aimed at id allocation: N threads, R rounds, K cheap sockets (ux servers) per round ------ */
+static int g_sN, g_sK, g_sR;
+
+static void *stress_thread(void *arg)
+{
+    int tid = (int)(intptr_t)arg;
+    struct xcm_socket *s[64];
+    char a[96];
+    for (int r = 0; r < g_sR; r++) {
+        pthread_barrier_wait(&g_bar);        /* all threads allocate at the same moment */
+        for (int k = 0; k < g_sK; k++) {
+            snprintf(a, sizeof a, "ux:c15s-%d-%d-%d", (int)getpid(), tid, k);
+            s[k] = xcm_server(a);
+            if (!s[k])
+                fail_("C15/unexpected-failure/op=S/xcm_server/stress/tp=ux", "thread %d round %d: xcm_server(%s): errno %d",
+                      tid, r, a, errno);
+        }
+        for (int k = 0; k < g_sK; k++)
+            if (s[k])
+                xcm_close(s[k]);
+    }
+    return NULL;
+}
+
+static int run_stress(void)
+{
+    pthread_t th[16];
+    pthread_barrier_init(&g_bar, NULL, g_sN);
+    for (int i = 0; i < g_sN; i++)
+        pthread_create(&th[i], NULL, stress_thread, (void *)(intptr_t)i);
+    for (int i = 0; i < g_sN; i++)
+        pthread_join(th[i], NULL);
+    pthread_barrier_destroy(&g_bar);
+    long total;
+    int64_t ex = -1;
+    long dup = idlog_duplicates(&total, &ex);
+    if (dup)
+        fprintf(stderr, "STRESS-VIOLATION C15/socket-id/duplicate/free-running: %ld of %ld socket ids handed out by %d "
+                "threads were handed out more than once (e.g. id %lld), although socket ids are unique per process\n",
+                dup, total, g_sN, (long long)ex);
+    printf("stress-pass threads=%d per_round=%d rounds=%d sockets=%ld duplicate_ids=%ld harness_failures=%d\n", g_sN,
+           g_sK, g_sR, total, dup, g_harness_failures);
+    return dup ? 4 : g_harness_failures ? 3 : 0;
 }
 
 int main(int argc, char **argv)
@@ -618,8 +715,17 @@ int main(int argc, char **argv)
             params = argv[++i];
         else if (!strcmp(argv[i], "--reps") && i + 1 < argc)
             reps = atoi(argv[++i]);
+        else if (!strcmp(argv[i], "--stress") && i + 1 < argc) {
+            if (sscanf(argv[++i], "%d,%d,%d", &g_sN, &g_sK, &g_sR) != 3 || g_sN < 2 || g_sN > 16 || g_sK < 1 ||
+                g_sK > 64 || g_sR < 1) {
+                fprintf(stderr, "bad --stress N,K,R\n");
+                return 2;
+            }
+        }
     }
     setenv("XCM_CTL", "/nonexistent-ctl-dir", 1);
+    if (g_sN)
+        return run_stress();
     for (g_rep = 0; g_rep < reps; g_rep++) {
         if (parse_threads(params) < 0) {
             fprintf(stderr, "bad params\n");
@@ -633,8 +739,15 @@ int main(int argc, char **argv)
             pthread_join(th[i], NULL);
         pthread_barrier_destroy(&g_bar);
     }
-    printf("tsan-pass reps=%d threads=%d harness_failures=%d\n", reps, g_nthr, g_harness_failures);
-    return g_harness_failures ? 3 : 0;
+    long total;
+    int64_t ex = -1;
+    long dup = idlog_duplicates(&total, &ex);
+    if (dup)
+        fprintf(stderr, "STRESS-VIOLATION C15/socket-id/duplicate/free-running: %ld of %ld socket ids were handed out "
+                "more than once (e.g. id %lld) in the free-running pass of scenario %s\n", dup, total, (long long)ex, params);
+    printf("tsan-pass reps=%d threads=%d harness_failures=%d sockets=%ld duplicate_ids=%ld\n", reps, g_nthr,
+           g_harness_failures, total, dup);
+    return dup ? 4 : g_harness_failures ? 3 : 0;
 }
 
 #else
